@@ -15,7 +15,7 @@ open Gql
 /-- the definition is an entry of `Schema.Types` -/
 def Prov (s : Schema) (q : Definition) : Prop := ∃ n, s.type? n = some q
 
-theorem lookup_mem {β : Type} : ∀ (l : List (Name × β)) (n : Name) (b : β), l.lookup n = some b → (n, b) ∈ l
+theorem typesLookup_mem {β : Type} : ∀ (l : List (Name × β)) (n : Name) (b : β), l.lookup n = some b → (n, b) ∈ l
   | [], _, _, h => by cases h
   | (k, v) :: rest, n, b, h => by
     simp only [List.lookup] at h
@@ -26,7 +26,7 @@ theorem lookup_mem {β : Type} : ∀ (l : List (Name × β)) (n : Name) (b : β)
       have : n = k := by simpa using heq
       subst this
       exact List.mem_cons_self
-    · exact List.mem_cons_of_mem _ (lookup_mem rest n b h)
+    · exact List.mem_cons_of_mem _ (typesLookup_mem rest n b h)
 
 theorem typeIs_some {s : Schema} {n : Name} {p : DefKind → Bool} (h : Gql.Spec.typeIs s n p = true) :
     (s.type? n).isSome := by
@@ -65,7 +65,7 @@ theorem fieldType_present (p : Definition) (hp : Prov s p) (nm : Name) (h : (Spe
         · cases hfd
       · split at hfd
         · obtain ⟨n, hn⟩ := hp
-          have hmem := lookup_mem s.types n p hn
+          have hmem := typesLookup_mem s.types n p hn
           exact typeIs_some (hft (n, p) hmem fd (List.mem_of_find?_eq_some hfd))
         · cases hfd
     cases hq : s.type? fd.type.name with
@@ -238,7 +238,7 @@ mutual
             simp only [Option.bind_some] at hfd
             split at hfd
             · obtain ⟨nn, hnn⟩ := hprov dd rfl
-              have hmem := lookup_mem s.types nn dd hnn
+              have hmem := typesLookup_mem s.types nn dd hnn
               have hsome := typeIs_some (hft (nn, dd) hmem fd (List.mem_of_find?_eq_some hfd))
               refine valOccs_present s hft v true (some fd.type) (s.type? fd.type.name) (fun q hq => ⟨_, hq⟩)
                 (fun _ => ⟨rfl, hsome⟩) (fun h => by cases h) o ho hot
@@ -290,7 +290,7 @@ theorem argSites_present (s : Schema) (d : QueryDoc) (hs : Gql.Spec.Closed s)
               cases had
             · cases hfdq
           · split at hfdq
-            · exact typeIs_some (hs.argTypes (nq, q) (lookup_mem _ _ _ hnq) fd (List.mem_of_find?_eq_some hfdq) ad had)
+            · exact typeIs_some (hs.argTypes (nq, q) (typesLookup_mem _ _ _ hnq) fd (List.mem_of_find?_eq_some hfdq) ad had)
             · cases hfdq
     · simp only [Spec.directiveArgSites, List.mem_map] at hsite
       obtain ⟨dir, hdir, rfl⟩ := hsite
@@ -301,7 +301,7 @@ theorem argSites_present (s : Schema) (d : QueryDoc) (hs : Gql.Spec.Closed s)
       | none => rw [hq] at this; cases this
       | some dd =>
         refine ⟨dd.args, by simp, fun ad had => ?_⟩
-        exact typeIs_some (hs.directiveArgTypes (dir.name, dd) (lookup_mem _ _ _ hq) ad had)
+        exact typeIs_some (hs.directiveArgTypes (dir.name, dd) (typesLookup_mem _ _ _ hq) ad had)
   obtain ⟨defs, hd, hall⟩ := hdefs
   refine ⟨defs, hd, fun a ha => ?_⟩
   rw [hd] at hnames
